@@ -6,6 +6,7 @@ mod cssops;
 mod dump;
 mod ops;
 mod scopedump;
+mod treedump;
 
 use std::io::{BufRead, Write};
 
